@@ -267,3 +267,7 @@ PROPS = {
 
 for _k, _v in PROPS.items():
     _v.setdefault("project", proj_all)
+# the properties whose Props file also asserts the sliced field programs of their own functions: when that
+# obligation breaks and the correspondence finds no input, name the function / path / item as the witness
+for _k in ("C01", "C02", "C03", "C07", "C08", "C11", "C12", "C13", "C14", "C15"):
+    PROPS[_k].setdefault("static_search", c16_static_search)
